@@ -349,3 +349,522 @@ def rt_column_zero(req):
 
 
 RT['column_zero'] = rt_column_zero
+
+
+# ----------------------------------------------------------------------------- round 8 probes
+class _AnyEq(object):
+    """a default value that compares equal to everything (unittest.mock.ANY, matchers)"""
+    def __eq__(self, other): return True
+    def __ne__(self, other): return False
+    __hash__ = object.__hash__
+    def __repr__(self): return 'ANYEQ'
+
+
+class _NoTruthEq(object):
+    """a default value whose == has no truth value (arrays, symbolic expressions)"""
+    def __eq__(self, other): return _NoTruth()
+    def __ne__(self, other): return _NoTruth()
+    __hash__ = object.__hash__
+    def __repr__(self): return 'NOTRUTH'
+
+
+class _NoTruth(object):
+    def __bool__(self): raise ValueError('truth value is ambiguous')
+
+
+def _sigdata(sig):
+    return tuple((p.name, p.kind.name, 'EMPTY' if p.default is p.empty else repr(p.default)) for p in sig.parameters.values())
+
+
+def _try(fn):
+    try:
+        return ('ok', fn())
+    except BaseException as e:  # noqa
+        return ('raised', type(e).__name__)
+
+
+def rt_odd_defaults(req):
+    """C12 / C20 / C07: default values with liberal or truth-less equality are ordinary defaults: autokwoargs (with and
+    without exceptions=) converts them, bind_callsig fills them in, two forwarding call sites merge them"""
+    import inspect, warnings
+    import sigtools
+    from sigtools import modifiers, support
+    from . import progs
+    which = req[1] if len(req) > 1 else 'all'
+    problems = []
+    ANY, NT = _AnyEq(), _NoTruthEq()
+    with warnings.catch_warnings():
+        warnings.simplefilter('ignore')
+        if which in ('all', 'c12'):
+            for label, d in (('equal-to-everything', ANY), ('truth-less ==', NT)):
+                def f(a, b=d, c=1): return (a, b, c)
+                def twin(a, b=7, c=1): return (a, b, c)
+                for kw in ({}, {'exceptions': ('b',)}, {'exceptions': ('c',)}):
+                    got = _try(lambda: _sigdata(inspect.signature(modifiers.autokwoargs(**kw)(f) if kw else modifiers.autokwoargs(f))))
+                    want = _try(lambda: _sigdata(inspect.signature(modifiers.autokwoargs(**kw)(twin) if kw else modifiers.autokwoargs(twin))))
+                    norm = lambda r: r if r[0] != 'ok' else ('ok', tuple((n, k, 'D' if dv != 'EMPTY' else dv) for n, k, dv in r[1]))  # noqa
+                    if norm(got) != norm(want):
+                        problems.append('odd-default-autokwoargs: autokwoargs(%s) over (a, b=<%s>, c=1) gives %s, over the twin with an ordinary default %s' % (
+                            kw, label, got, want))
+                g = modifiers.autokwoargs(f)
+                r = _try(lambda: g(0, c=5))
+                if r != ('ok', (0, d, 5)) and not (r[0] == 'ok' and r[1][0] == 0 and r[1][1] is d and r[1][2] == 5):
+                    problems.append('odd-default-autokwoargs-call: autokwoargs(f)(0, c=5) with a %s default -> %s' % (label, r))
+        if which in ('all', 'c20'):
+            for label, d in (('equal-to-everything', ANY), ('truth-less ==', NT)):
+                def h(a, b=d, *, c=d): return {'a': a, 'b': b, 'c': c}
+                sig = inspect.signature(h)
+                for args, kwargs in (((1,), {}), ((1, 2), {}), ((1,), {'c': 3}), ((), {})):
+                    real = _try(lambda: h(*args, **kwargs))
+                    got = _try(lambda: dict(support.bind_callsig(sig, args, kwargs)))
+                    same = (real[0] == got[0]) and (real[0] != 'ok' or (set(real[1]) == set(got[1]) and all(real[1][k] is got[1][k] or (
+                        not isinstance(real[1][k], (_AnyEq, _NoTruthEq)) and real[1][k] == got[1][k]) for k in real[1])))
+                    if real[0] == 'raised' and got[0] == 'raised' and got[1] == 'TypeError':
+                        same = True
+                    if not same:
+                        problems.append('odd-default-bind_callsig: bind_callsig(%s, %s, %s) with %s defaults -> %s, the call gives %s' % (
+                            sig, args, kwargs, label, got, real))
+                v = _try(lambda: support.sort_callsigs(sig, [((1,), {}), ((), {})]))
+                if v[0] != 'ok' or len(v[1][0]) != 1 or len(v[1][1]) != 1:
+                    problems.append('odd-default-sort_callsigs: sort_callsigs with %s defaults -> %s' % (label, v if v[0] != 'ok' else (len(v[1][0]), len(v[1][1]))))
+        if which in ('all', 'c07'):
+            src = ('from %s import _AnyEq, _NoTruthEq\nNT = _NoTruthEq()\nANY = _AnyEq()\ndef target(x, y=1, *, z=2): return x\n'
+                   'def two_sites(flag, own=NT, *args, **kwargs):\n    if flag:\n        return target(*args, **kwargs)\n    return target(*args, **kwargs)\n'
+                   'def two_sites_any(flag, own=ANY, *args, **kwargs):\n    if flag:\n        return target(*args, **kwargs)\n    return target(*args, **kwargs)\n') % __name__
+            mod, fname = progs.load_module(src)
+            try:
+                for nm in ('two_sites', 'two_sites_any'):
+                    fobj = getattr(mod, nm)
+                    r = _try(lambda: str(sigtools.signature(fobj)))
+                    i = _try(lambda: str(inspect.signature(fobj)))
+                    if i[0] == 'ok' and r[0] != 'ok':
+                        problems.append('retrieval-raises: sigtools.signature(%s) raised %s although inspect.signature succeeds (a default with unusual == met at two forwarding call sites)' % (nm, r[1]))
+            finally:
+                progs.unload(fname)
+    return ('ok', tuple(problems[:6]), 'odd_defaults')
+
+
+RT['odd_defaults'] = rt_odd_defaults
+
+
+def rt_partial_mix(req):
+    """C05: a body that mentions functools.partial(target, *args, **kwargs) AND calls target(*args, **kwargs) directly, in either
+    order / on different branches: every accepted call must run (the direct call's required parameters stay required)"""
+    import warnings
+    import sigtools
+    from sigtools import signatures
+    from . import progs
+    src = '''
+import functools
+LOG = []
+def target(x, y, *, z): return (x, y, z)
+def later_first(*args, **kwargs):
+    retry = functools.partial(target, *args, **kwargs)
+    LOG.append(retry)
+    return target(*args, **kwargs)
+def direct_first(*args, **kwargs):
+    r = target(*args, **kwargs)
+    LOG.append(functools.partial(target, *args, **kwargs))
+    return r
+def branches(flag, *args, **kwargs):
+    if flag:
+        return functools.partial(target, *args, **kwargs)
+    return target(*args, **kwargs)
+def two_direct_after(flag, *args, **kwargs):
+    LOG.append(functools.partial(target, *args, **kwargs))
+    if flag:
+        return target(*args, **kwargs)
+    return target(*args, **kwargs)
+'''
+    mod, fname = progs.load_module(src)
+    problems = []
+    shapes = [((), {}), ((1,), {}), ((1, 2), {}), ((1, 2), {'z': 3}), ((), {'x': 1, 'y': 2, 'z': 3}), ((1,), {'z': 3}), ((), {'z': 3})]
+    try:
+        for nm, lead in (('later_first', ()), ('direct_first', ()), ('branches', (0,)), ('two_direct_after', (0,)), ('two_direct_after', (1,))):
+            f = getattr(mod, nm)
+            with warnings.catch_warnings():
+                warnings.simplefilter('ignore')
+                sig = sigtools.signature(f)
+                if str(sig) == str(signatures.signature(f)):
+                    continue        # the plain signature: C05 claims nothing more
+            for a, k in shapes:
+                a = lead + a
+                try:
+                    sig.bind(*a, **k)
+                except TypeError:
+                    continue
+                try:
+                    f(*a, **k)
+                except TypeError as e:
+                    problems.append('partial-mix-unsound: sigtools.signature(%s) = %s accepts %s %s but the call raises TypeError: %s' % (nm, sig, a, k, str(e)[:80]))
+                    break
+    finally:
+        progs.unload(fname)
+    return ('ok', tuple(problems[:4]), 'partial_mix')
+
+
+RT['partial_mix'] = rt_partial_mix
+
+
+def rt_lru_callee(req):
+    """C06 / C16: a forwarding wrapper whose callee is a functools.lru_cache wrapper (found through __wrapped__ only): discovery
+    equals the explicit declaration, twice in a row, and the callee keeps its attributes"""
+    import functools, warnings
+    import sigtools
+    from sigtools import signatures
+    from . import progs
+    src = '''
+import functools
+@functools.lru_cache(maxsize=None)
+def cached(x, y=1, *, z=2): return x
+def wrapper(a, *args, **kwargs): return cached(*args, **kwargs)
+def wrapper_plain(a, *args, **kwargs): return None
+'''
+    mod, fname = progs.load_module(src)
+    problems = []
+    try:
+        before = sorted(k for k in dir(mod.cached) if k in ('__wrapped__', '__signature__'))
+        with warnings.catch_warnings():
+            warnings.simplefilter('ignore')
+            want = str(signatures.forwards(signatures.signature(mod.wrapper_plain), signatures.signature(mod.cached)))
+            got = [str(sigtools.signature(mod.wrapper)) for _ in range(2)]
+            direct = [_try(lambda: str(sigtools.signature(mod.cached))) for _ in range(2)]
+        if got != [want, want]:
+            problems.append('lru-callee-discovery: sigtools.signature(wrapper) twice = %s, forwards(wrapper, cached) = %s' % (got, want))
+        if direct != [('ok', '(x, y=1, *, z=2)')] * 2:
+            problems.append('lru-callee-direct: sigtools.signature(lru_cache wrapper) twice = %s' % (direct,))
+        after = sorted(k for k in dir(mod.cached) if k in ('__wrapped__', '__signature__'))
+        if after != before:
+            problems.append('attributes-changed: the lru_cache wrapper had %s, now has %s' % (before, after))
+    finally:
+        progs.unload(fname)
+    return ('ok', tuple(problems), 'lru_callee')
+
+
+RT['lru_callee'] = rt_lru_callee
+
+
+def rt_nested_partial(req):
+    """C10 / C19: partial objects of partial objects that functools does not flatten (the inner one has attributes or is an
+    instance of a subclass), re-binding a keyword, and partial subclasses with a Python-level __call__: the signature is
+    the one inspect reports, the default shown is the value the function receives, the partial has depth 0"""
+    import functools, inspect, warnings
+    import sigtools
+    from sigtools import signatures
+    problems = []
+
+    def f(a, b=0, *, k=0, j=0): return (a, b, k, j)
+
+    class Sub(functools.partial):
+        pass
+
+    class Tracing(functools.partial):
+        def __call__(self, *args, **kwargs):
+            return super().__call__(*args, **kwargs)
+
+    class Tracing2(functools.partial):
+        def __call__(self, *args, **kwargs):
+            return functools.partial.__call__(self, *args, **kwargs)
+    inner = functools.partial(f, k=1)
+    inner.note = 'kept apart'
+    cases = [('attr-inner rebinding k', functools.partial(inner, k=2)),
+             ('attr-inner rebinding k, binding j', functools.partial(inner, 5, k=2, j=3)),
+             ('subclass-inner rebinding k', functools.partial(Sub(f, k=1), k=2)),
+             ('three levels', functools.partial(functools.partial(inner, k=2), k=3)),
+             ('subclass with __call__ (super)', Tracing(f, 1, k=4)),
+             ('subclass with __call__ (explicit)', Tracing2(f, 1, k=4)),
+             ('nothing bound', functools.partial(f))]
+    with warnings.catch_warnings():
+        warnings.simplefilter('ignore')
+        for label, p in cases:
+            want = _sigdata(inspect.signature(p))
+            for nm, fn in (('signatures.signature', signatures.signature), ('sigtools.signature', sigtools.signature)):
+                r = _try(lambda: fn(p))
+                if r[0] != 'ok':
+                    problems.append('nested-partial-raises: %s(%s) raised %s' % (nm, label, r[1]))
+                    continue
+                if _sigdata(r[1]) != want:
+                    problems.append('nested-partial-signature: %s(%s) = %s, inspect.signature gives %s' % (nm, label, r[1], inspect.signature(p)))
+                    continue
+                dp = r[1].sources.get('+depths', {})
+                if dp.get(p) != 0:
+                    problems.append('partial-depth: %s(%s): the partial object has depth %r in %s' % (nm, label, dp.get(p), {getattr(k, '__name__', type(k).__name__): v for k, v in dp.items()}))
+            got = p() if 'binding j' in label or 'subclass with' in label else p(9)
+            shown = {n: d for n, kd, d in want}
+            if repr(got[2]) != shown.get('k'):
+                problems.append('nested-partial-default: %s shows k=%s but the function receives k=%r' % (label, shown.get('k'), got[2]))
+    return ('ok', tuple(problems[:6]), 'nested_partial')
+
+
+RT['nested_partial'] = rt_nested_partial
+
+
+def rt_late_binding(req):
+    """C11: postponed annotations denote what the names mean in the defining module NOW (names bound or rebound after the
+    signature was retrieved, also for signatures stored at decoration time); a quoted annotation is a string, as for the
+    eager twin; one-sided annotations survive merge in both orders, evaluated"""
+    import __future__, types, sys, warnings
+    import sigtools
+    from sigtools import signatures, modifiers
+    problems = []
+
+    def mod(name, src, future=True):
+        m = types.ModuleType(name)
+        m.modifiers = modifiers
+        exec(compile(src, name + '.py', 'exec', __future__.annotations.compiler_flag if future else 0, dont_inherit=True), m.__dict__)
+        return m
+    src = ('def f(x: Later, y: "Tree" = None) -> Later: return x\n'
+           '@modifiers.kwoargs("k")\ndef g(a: Later, k: Later = None) -> "Tree": return a\n'
+           'def plain(x, y=None): return x\n')
+    with warnings.catch_warnings():
+        warnings.simplefilter('ignore')
+        m = mod('verif_late_a', src)
+        sigs = {'f': sigtools.signature(m.f), 'g': sigtools.signature(m.g), 'masked': signatures.mask(sigtools.signature(m.f), 0, 'y')}
+        m.Later = int          # bound after retrieval
+        m.Tree = bytes
+
+        def ev(sig):
+            e = sig.evaluated()
+            return tuple((p.name, p.annotation) for p in e.parameters.values() if p.annotation is not p.empty) + (('return', e.return_annotation),)
+        for nm, sg in sigs.items():
+            r = _try(lambda: ev(sg))
+            if r[0] != 'ok':
+                problems.append('late-binding-raises: evaluated() of the signature of %s retrieved before its names were bound raised %s' % (nm, r[1]))
+            elif any(v not in (int, 'Tree') for _, v in r[1]):
+                problems.append('late-binding-stale: %s evaluates to %s (Later is int now; "Tree" is a string)' % (nm, r[1]))
+        m.Later = str          # rebound
+        r = _try(lambda: ev(sigs['f']))
+        if r[0] != 'ok' or dict(r[1]).get('x') is not str:
+            problems.append('late-binding-stale: after rebinding Later to str the signature retrieved earlier evaluates to %s' % (r,))
+        # quoted annotation: eager twin
+        e = mod('verif_late_b', 'Later = str\nTree = bytes\n' + src, future=False)
+        for nm in ('f', 'g'):
+            a = _try(lambda: ev(sigtools.signature(getattr(m, nm))))
+            b = _try(lambda: ev(sigtools.signature(getattr(e, nm))))
+            if a != b:
+                problems.append('twin-differs: %s: postponed module gives %s, eager twin %s' % (nm, a, b))
+        # one annotated contributor, either side
+        for order in ((m.f, m.plain), (m.plain, m.f)):
+            sg = _try(lambda: ev(signatures.merge(*[signatures.signature(o) for o in order])))
+            if sg[0] != 'ok' or dict(sg[1]).get('x') is not str:
+                problems.append('merge-one-sided-annotation: merge(%s) evaluates to %s' % (', '.join(o.__name__ for o in order), sg))
+    return ('ok', tuple(problems[:6]), 'late_binding')
+
+
+RT['late_binding'] = rt_late_binding
+
+
+def rt_copy_eq(req):
+    """C14: copies (copy, deepcopy, pickle) of returned parameters and signatures compare equal to the original and hash alike;
+    == / != never raise whatever evaluating a postponed annotation raises"""
+    import copy, pickle, types, __future__, warnings, inspect
+    import sigtools
+    problems = []
+    with warnings.catch_warnings():
+        warnings.simplefilter('ignore')
+        def f(a, b=1, *args, c: int = 2, **kwargs) -> str: return a
+        sig = sigtools.signature(f)
+        objs = [('signature', sig)] + [('parameter ' + p.name, p) for p in sig.parameters.values()]
+        for label, o in objs:
+            for how, mk in (('copy.copy', copy.copy), ('copy.deepcopy', copy.deepcopy), ('pickle', lambda x: pickle.loads(pickle.dumps(x)))):
+                c = _try(lambda: mk(o))
+                if c[0] != 'ok':
+                    continue            # not every object pickles (provenance holds functions); nothing is claimed then
+                eq = _try(lambda: (o == c[1], c[1] == o))
+                if eq[0] != 'ok':
+                    problems.append('copy-comparison-raises: %s of a %s: %s' % (how, label, eq[1]))
+                elif eq[1] == (True, True):
+                    h = _try(lambda: (hash(o), hash(c[1])))
+                    if h[0] == 'ok' and h[1][0] != h[1][1]:
+                        problems.append('copy-hash-differs: the %s of a %s equals it but hashes differently' % (how, label))
+                plain = inspect.Parameter(o.name, o.kind, default=o.default, annotation=o.annotation) if label.startswith('parameter') else None
+                if plain is not None and c[1] == plain and hash(c[1]) != hash(plain):
+                    problems.append('copy-hash-differs: the %s of a %s equals the plain parameter but hashes differently' % (how, label))
+        src = ('HANDLERS = {}\nclass Matrix:\n    def __class_getitem__(cls, k): return 1 // k[1]\n'
+               'def t(x: int | "Node"): pass\ndef k(x: HANDLERS["json"]): pass\ndef z(x: Matrix[2, 0]): pass\ndef n(x: Missing): pass\n')
+        m = types.ModuleType('verif_copyeq')
+        exec(compile(src, 'verif_copyeq.py', 'exec', __future__.annotations.compiler_flag, dont_inherit=True), m.__dict__)
+        for nm in 'tkzn':
+            s1, s2 = sigtools.signature(getattr(m, nm)), sigtools.signature(getattr(m, nm))
+            for a, b, what in ((s1, s1, 'sig == sig'), (s1, s2, 'sig == the same retrieved again'), (s1.parameters['x'], s2.parameters['x'], 'parameter == parameter')):
+                r = _try(lambda: (a == b, a != b))
+                if r[0] != 'ok' or r[1] != (True, False):
+                    problems.append('unevaluable-annotation-comparison: %s for `def %s` whose postponed annotation cannot be evaluated -> %s' % (what, nm, r))
+    return ('ok', tuple(problems[:6]), 'copy_eq')
+
+
+RT['copy_eq'] = rt_copy_eq
+
+
+def rt_dict_unpack(req):
+    """C16: a forwarding call that unpacks a mapping owned by the inspected function (an attribute, a global dict) next to
+    explicit keywords: retrieval leaves that mapping as it was"""
+    import warnings
+    import sigtools
+    from . import progs
+    src = '''
+def target(x, y=1, *, mode=None, z=2): return x
+DEFAULTS = {'z': 5}
+def by_global(*args, **kwargs): return target(*args, mode='g', **DEFAULTS)
+def by_attr(*args, **kwargs): return target(*args, mode='a', **by_attr.defaults)
+by_attr.defaults = {'z': 6}
+class Cfg: pass
+def by_vars(*args, **kwargs): return target(*args, mode='v', **by_vars.cfg.__dict__)
+by_vars.cfg = Cfg(); by_vars.cfg.z = 7
+'''
+    mod, fname = progs.load_module(src)
+    problems = []
+    try:
+        snap = lambda: (dict(mod.DEFAULTS), dict(mod.by_attr.defaults), dict(vars(mod.by_vars.cfg)), sorted(vars(mod.by_attr)), sorted(vars(mod.by_vars)))  # noqa
+        before = snap()
+        with warnings.catch_warnings():
+            warnings.simplefilter('ignore')
+            for nm in ('by_global', 'by_attr', 'by_vars'):
+                _try(lambda: sigtools.signature(getattr(mod, nm)))
+        if snap() != before:
+            problems.append('inspected-mapping-changed: after retrieval the mappings the forwarding calls unpack are %s, were %s' % (snap()[:3], before[:3]))
+    finally:
+        progs.unload(fname)
+    return ('ok', tuple(problems), 'dict_unpack')
+
+
+RT['dict_unpack'] = rt_dict_unpack
+
+
+def rt_hint_history(req):
+    """C18: a modifiers-decorated method that FORWARDS its stars (discovery goes through the translator's hint): the bound
+    signature does not depend on whether the class-level object was asked first; annotate applied after a first retrieval
+    is shown by the next one; a staticmethod below a modifier keeps all its parameters"""
+    import warnings, inspect
+    import sigtools
+    from sigtools import modifiers
+    from . import progs
+    src = '''
+from sigtools import modifiers
+def target(a, b=2): return (a, b)
+def make():
+    class K(object):
+        @modifiers.kwoargs('k')
+        def m(self, *args, k=None, **kwargs): return target(*args, **kwargs)
+        @staticmethod
+        @modifiers.posoargs('a')
+        def sm(a, b=1): return (a, b)
+        @staticmethod
+        @modifiers.kwoargs('b')
+        def sk(a, b=1): return (a, b)
+    return K
+@modifiers.kwoargs('k')
+def fn(x, *args, k=None, **kwargs): return target(*args, **kwargs)
+@modifiers.kwoargs('k')
+def fn2(x, *args, k=None, **kwargs): return target(*args, **kwargs)
+'''
+    mod, fname = progs.load_module(src)
+    problems = []
+    try:
+        with warnings.catch_warnings():
+            warnings.simplefilter('ignore')
+            K1, K2 = mod.make(), mod.make()
+            first = str(sigtools.signature(K1.m))               # class-level first
+            b1 = str(sigtools.signature(K1().m))
+            b2 = str(sigtools.signature(K2().m))                # bound only
+            if b1 != b2:
+                problems.append('history-dependent: bound signature after a class-level retrieval %s, without it %s (class-level: %s)' % (b1, b2, first))
+            for nm, want in (('sm', '(a, /, b=1)'), ('sk', '(a, *, b=1)')):
+                for holder, hl in ((K1, 'class'), (K1(), 'instance')):
+                    r = _try(lambda: str(inspect.signature(getattr(holder, nm))))
+                    if r != ('ok', want):
+                        problems.append('static-modifier: %s.%s reached through the %s advertises %s, expected %s' % ('K', nm, hl, r, want))
+                    c = _try(lambda: getattr(holder, nm)(5))
+                    if c != ('ok', (5, 1)):
+                        problems.append('static-modifier-call: K.%s(5) through the %s -> %s' % (nm, hl, c))
+            before = str(sigtools.signature(mod.fn))
+            modifiers.annotate(x=int)(mod.fn)
+            modifiers.annotate(x=int)(mod.fn2)
+            after, fresh = str(sigtools.signature(mod.fn)), str(sigtools.signature(mod.fn2))
+            if after != fresh:
+                problems.append('annotate-after-retrieval: %s after annotate on a function whose signature had been read (%s), %s on its twin that had not' % (after, before, fresh))
+    finally:
+        progs.unload(fname)
+    return ('ok', tuple(problems[:6]), 'hint_history')
+
+
+RT['hint_history'] = rt_hint_history
+
+RT['odd_defaults_c07'] = lambda req: rt_odd_defaults(('rt:odd_defaults', 'c07'))
+RT['odd_defaults_c12'] = lambda req: rt_odd_defaults(('rt:odd_defaults', 'c12'))
+RT['odd_defaults_c20'] = lambda req: rt_odd_defaults(('rt:odd_defaults', 'c20'))
+
+
+def rt_c13_r8(req):
+    """C13: (1) what the wrapped object's own __get__ raises when a decorated descriptor is looked up propagates, as in the
+    hand-written composition; (2) two decorating functions that share a name in one module (the name is re-defined) each get
+    the signature of their own body: every accepted call runs"""
+    import warnings, inspect
+    import sigtools
+    from sigtools import wrappers
+    from . import progs
+    src = '''
+from sigtools import wrappers
+class Desc(object):
+    def __call__(self, *args, **kwargs): return ('unbound', args)
+    def __get__(self, inst, owner):
+        if inst is not None and getattr(inst, 'closed', None) == 'attr': raise AttributeError('closed')
+        if inst is not None and getattr(inst, 'closed', None) == 'key': raise KeyError('closed')
+        if inst is None: return self
+        return lambda *a, **k: ('bound', inst.tag, a)
+@wrappers.decorator
+def deco(wrapped, *args, **kwargs): return ('w', wrapped(*args, **kwargs))
+@wrappers.wrapper_decorator
+def wdeco(wrapped, *args, **kwargs): return ('w', wrapped(*args, **kwargs))
+class C(object):
+    def __init__(self, tag, closed=None): self.tag = tag; self.closed = closed
+    m = deco(Desc())
+    n = wdeco(Desc())
+def hand(inst): return ('w', Desc().__get__(inst, C)())
+
+@wrappers.decorator
+def trace(wrapped, level, *args, **kwargs): return ('one', level, wrapped(*args, **kwargs))
+@trace
+def f1(a, b=1): return (a, b)
+@wrappers.decorator
+def trace(wrapped, *args, verbose=False, **kwargs): return ('two', verbose, wrapped(*args, **kwargs))
+@trace
+def f2(a, b=1): return (a, b)
+class K(object):
+    @trace
+    def meth(self, a): return a
+'''
+    mod, fname = progs.load_module(src)
+    problems = []
+    try:
+        with warnings.catch_warnings():
+            warnings.simplefilter('ignore')
+            for closed in (None, 'attr', 'key'):
+                inst = mod.C('t', closed)
+                want = _try(lambda: mod.hand(inst))
+                for nm in ('m', 'n'):
+                    got = _try(lambda: getattr(inst, nm)())
+                    if got != want:
+                        problems.append("descriptor-get: C(closed=%r).%s() -> %s, the hand-written composition -> %s" % (closed, nm, got, want))
+            shapes = [((1,), {}), ((1, 2), {}), ((1, 2, 3), {}), ((), {'a': 1}), ((1,), {'verbose': True}), ((1,), {'level': 0}), ((0, 1), {'b': 2})]
+            for order in (('f1', 'f2', 'meth'), ('meth', 'f2', 'f1')):
+                for nm in order:
+                    fobj = getattr(mod, nm) if nm != 'meth' else mod.K().meth
+                    for getter, gl in ((sigtools.signature, 'sigtools.signature'), (inspect.signature, 'inspect.signature')):
+                        sig = getter(fobj)
+                        for a, k in shapes:
+                            try:
+                                sig.bind(*a, **k)
+                            except TypeError:
+                                continue
+                            try:
+                                fobj(*a, **k)
+                            except TypeError as e:
+                                problems.append('same-name-decorators: %s(%s) = %s accepts %s %s but the call raises TypeError: %s' % (gl, nm, sig, a, k, str(e)[:70]))
+                                break
+    finally:
+        progs.unload(fname)
+    return ('ok', tuple(problems[:6]), 'c13_r8')
+
+
+RT['c13_r8'] = rt_c13_r8
